@@ -157,3 +157,137 @@ Proof.
   - left. exact R.
   - right. split; [exact A|]. exists q. exact B.
 Qed.
+
+(* ------------------------------------------------------------------ the control channel is first-in first-out *)
+Definition is_ctl_arm (o : dop) : bool :=
+  match o with DoRunOnce _ (ArmControl _) => true | _ => false end.
+Definition ctl_arms (ops : list dop) : nat := length (filter is_ctl_arm ops).
+
+Lemma on_control_keeps_control s c send s' e : on_control s c send = (s', e) -> d_control s' = d_control s.
+Proof.
+  unfold on_control. destruct c as [a0 t0|a0 t0|k1].
+  - destruct (streams_full s); [intro H; injection H as <- _; reflexivity|].
+    destruct (next_random _) as [s2 q] eqn:Er. destruct (next_random_same _ _ _ Er) as (_ & _ & _ & _ & _ & _ & R7).
+    dsimpl. destruct send; [destruct (slots_insert _ _)| |]; intro H; injection H as <- _; dsimpl; exact R7.
+  - destruct (get_slots s a0); [destruct (slots_pop _ _) as [[? ?]|]|]; intro H; injection H as <- _; reflexivity.
+  - destruct (find_stream s k1) as [en|]; [destruct (se_alive en)|]; intro H; injection H as <- _; reflexivity.
+Qed.
+
+Lemma on_maybe_connect_ack_control s addr m s' e :
+  on_maybe_connect_ack s addr m = (s', e) -> d_control s' = d_control s.
+Proof.
+  unfold on_maybe_connect_ack. destruct (streams_full s); [intro H; injection H as <- _; auto|].
+  destruct (get_slots s addr); [|intro H; injection H as <- _; auto].
+  destruct (slots_pop _ _) as [[c sl']|]; [|intro H; injection H as <- _; auto].
+  destruct (mem_z _ _); intro H; injection H as <- _; auto.
+Qed.
+
+Lemma on_recv_control s addr m s' e : on_recv s addr m = (s', e) -> d_control s' = d_control s.
+Proof.
+  unfold on_recv. destruct (find_stream s _) as [en|].
+  - destruct (se_alive en); intro H; injection H as <- _; reflexivity.
+  - destruct (dm_type m); try (intro H; injection H as <- _; reflexivity).
+    + apply on_maybe_connect_ack_control.
+    + intro H. apply (on_syn_keeps _ _ _ _ H).
+Qed.
+
+(* a step that is not the control arm only appends to the channel *)
+Lemma dstep_control_other s o s' e :
+  d_inv s -> is_ctl_arm o = false -> dstep s o = (s', e) -> exists suf, d_control s' = d_control s ++ suf.
+Proof.
+  intros Hinv Hno H.
+  assert (Hsame : d_control s' = d_control s -> exists suf, d_control s' = d_control s ++ suf)
+    by (intros ->; exists []; rewrite app_nil_r; reflexivity).
+  destruct o as [pushes ar|id|id|id|addr token|addr token|addr token|k1].
+  - apply Hsame.
+    destruct (run_once_decomp _ _ _ _ _ Hinv H) as (s1 & e1 & e3 & Ec & Ea & -> & Hinv1 & Hacc & Hfr & Hinv2 & Hsm).
+    destruct Hfr as [_ _ B3 _ _]. destruct Hsm as (_ & _ & _ & _ & P5 & _).
+    set (s2 := fold_left push_acceptor pushes s1) in *. rewrite <- B3, <- P5.
+    unfold arm_step in Ea. destruct ar as [|send|addr [m|]]; [| discriminate Hno | |].
+    + destruct (d_next_acc s2); [injection Ea as <- _; reflexivity|].
+      destruct (d_chan s2); injection Ea as <- _; reflexivity.
+    + apply (on_recv_control _ _ _ _ _ Ea).
+    + injection Ea as <- _. reflexivity.
+  - cbn [dstep] in H. injection H as <- _. apply Hsame. unfold push_acceptor. destruct (_ <? _); reflexivity.
+  - cbn [dstep] in H. destruct (find _ _) as [[x [k sid]]|]; injection H as <- _; dsimpl; [eauto|apply Hsame; reflexivity].
+  - cbn [dstep] in H. injection H as <- _. apply Hsame. reflexivity.
+  - cbn [dstep] in H. injection H as <- _. dsimpl. eauto.
+  - cbn [dstep] in H. injection H as <- _. dsimpl. eauto.
+  - cbn [dstep] in H. injection H as <- _. destruct (existsb _ _); dsimpl; [eauto|apply Hsame; reflexivity].
+  - cbn [dstep] in H. injection H as <- _. dsimpl. eauto.
+Qed.
+
+(* the control arm takes exactly the head *)
+Lemma dstep_control_head s pushes send c r s' e :
+  d_inv s -> d_control s = c :: r -> dstep s (DoRunOnce pushes (ArmControl send)) = (s', e) ->
+  d_control s' = r.
+Proof.
+  intros Hinv Hctl H.
+  destruct (run_ctl_decomp _ _ _ _ _ _ _ Hinv Hctl H) as (s2 & e1 & e3 & _ & _ & Hr & _ & _ & _ & Hoc).
+  rewrite (on_control_keeps_control _ _ _ _ _ Hoc). exact Hr.
+Qed.
+
+(* FAIRNESS => SERVICE, over all op lists: the message at position n of the control channel is
+   the head of the channel when the (n+1)-th control arm of the run fires, whatever else the
+   dispatcher and the other tasks do in between *)
+Theorem control_fifo : forall ops s n c,
+  d_inv s -> nth_error (d_control s) n = Some c -> (n < ctl_arms ops)%nat ->
+  exists pre pushes send post r,
+    ops = pre ++ DoRunOnce pushes (ArmControl send) :: post /\ ctl_arms pre = n /\
+    d_control (drun s pre) = c :: r.
+Proof.
+  induction ops as [|o rest IH]; intros s n c Hinv Hn Hlt; [cbn in Hlt; lia|].
+  destruct (dstep s o) as [s1 e] eqn:E. destruct (dstep_inv _ _ _ _ Hinv E) as [Hinv1 _].
+  destruct (is_ctl_arm o) eqn:Eo.
+  - destruct o as [pushes [|send|addr om]|id|id|id|addr token|addr token|addr token|k1]; try discriminate Eo.
+    destruct (d_control s) as [|c0 r0] eqn:Ectl; [destruct n; discriminate Hn|].
+    destruct n as [|n'].
+    + cbn [nth_error] in Hn. injection Hn as ->.
+      exists [], pushes, send, rest, r0. split; [reflexivity|]. split; [reflexivity|]. exact Ectl.
+    + cbn [nth_error] in Hn. pose proof (dstep_control_head _ _ _ _ _ _ _ Hinv Ectl E) as Hc1.
+      unfold ctl_arms in Hlt. cbn [filter is_ctl_arm length] in Hlt.
+      destruct (IH s1 n' c Hinv1 ltac:(rewrite Hc1; exact Hn) ltac:(unfold ctl_arms; lia))
+        as (pre & pushes' & send' & post & r & -> & Hpre & Hd).
+      exists (DoRunOnce pushes (ArmControl send) :: pre), pushes', send', post, r.
+      split; [reflexivity|]. split; [unfold ctl_arms in *; cbn [filter is_ctl_arm length]; lia|].
+      cbn [drun]. rewrite E. exact Hd.
+  - destruct (dstep_control_other _ _ _ _ Hinv Eo E) as [suf Hsuf].
+    assert (Hn1 : nth_error (d_control s1) n = Some c).
+    { rewrite Hsuf, nth_error_app1; [exact Hn|]. apply nth_error_Some. congruence. }
+    assert (Hlt1 : (n < ctl_arms rest)%nat) by (unfold ctl_arms in *; cbn [filter] in Hlt; rewrite Eo in Hlt; exact Hlt).
+    destruct (IH s1 n c Hinv1 Hn1 Hlt1) as (pre & pushes' & send' & post & r & -> & Hpre & Hd).
+    exists (o :: pre), pushes', send', post, r.
+    split; [reflexivity|]. split; [unfold ctl_arms in *; cbn [filter]; rewrite Eo; exact Hpre|].
+    cbn [drun]. rewrite E. exact Hd.
+Qed.
+
+(* an abandoned connect releases what it reserved, eventually: after connect()'s future is
+   dropped, in EVERY continuation in which the control arm fires more often than there were
+   messages queued before it, there is a step that handles its ConnectDropped, and that step
+   removes the first pending connect with this token (if there still is one) *)
+Theorem dropped_connect_eventually_released s addr token ops :
+  d_inv s ->
+  let s0 := fst (dstep s (DoDropConnect addr token)) in
+  (length (d_control s) < ctl_arms ops)%nat ->
+  exists pre pushes send post,
+    ops = pre ++ DoRunOnce pushes (ArmControl send) :: post /\
+    let sb := drun s0 pre in
+    let sa := fst (dstep sb (DoRunOnce pushes (ArmControl send))) in
+    (forall a, a <> addr -> pending sa a = pending sb a) /\
+    ((pending sa addr = pending sb addr /\ forall x, In x (pending sb addr) -> cn_token x <> token) \/
+     exists c m1 m2, pending sb addr = m1 ++ c :: m2 /\ cn_token c = token /\
+                     (forall x, In x m1 -> cn_token x <> token) /\ pending sa addr = m1 ++ m2).
+Proof.
+  intros Hinv s0 Hlt.
+  destruct (dstep s (DoDropConnect addr token)) as [s0' e0] eqn:E0. cbn [fst] in s0. subst s0.
+  destruct (dstep_inv _ _ _ _ Hinv E0) as [Hinv0 _].
+  assert (Hc0 : d_control s0' = d_control s ++ [CtlConnectDropped addr token]).
+  { cbn [dstep] in E0. injection E0 as <- _. reflexivity. }
+  assert (Hn : nth_error (d_control s0') (length (d_control s)) = Some (CtlConnectDropped addr token)).
+  { rewrite Hc0, nth_error_app2 by lia. rewrite Nat.sub_diag. reflexivity. }
+  destruct (control_fifo ops s0' _ _ Hinv0 Hn Hlt) as (pre & pushes & send & post & r & -> & _ & Hd).
+  exists pre, pushes, send, post. split; [reflexivity|]. cbv zeta.
+  destruct (drun_inv pre s0' Hinv0) as [Hinvb _].
+  destruct (dstep (drun s0' pre) (DoRunOnce pushes (ArmControl send))) as [sa e] eqn:E. cbn [fst].
+  destruct (connect_dropped_frees_slot _ _ _ _ _ _ _ _ Hinvb Hd E) as (_ & _ & A & B). auto.
+Qed.
